@@ -81,7 +81,11 @@ def declared_lengths(chk, stack, caller):
         d = {"request": "%s %s with Content-Length: %d and no body bytes sent" % (method, target, declared), "limit_of_its_class": limit,
              "status": st, "upstream_bytes": relayed}
         if declared > limit:
-            if st is None or not (400 <= st < 500) or relayed:
+            if st is None and not relayed:
+                # no answer before any body byte is not a refusal yet, and nothing was relayed: not judged (the bodies that are really
+                # sent, above, decide); counted so that it shows
+                chk.count("declared_over_limit_not_answered_without_a_body")
+            elif st is None or not (400 <= st < 500) or relayed:
                 chk.violation("oversize body was not refused with a 4xx / part of it was relayed", d, expected="4xx at once, 0 upstream bytes",
                               observed=(st, relayed))
         elif st is not None and 400 <= st < 500:
